@@ -350,6 +350,20 @@ def _oracle(plan, sr, stream, frame, nc, fs, B0, B1, log, probe, sigbase):
         mid = rd("[1:M-1, 0]", lambda: sr[1:M - 1, 0])
         if not np.array_equal(mid, expect(slice(1, M - 1))[:, 0]):
             raise Violation("C11.O3", f"{sigbase}:mid", "sr[1:M-1, 0] differs from the file")
+    if M >= 2:
+        tail = rd("[-2:]", lambda: sr[-2:])
+        if tail.shape[0] != 2 or not np.array_equal(tail, expect(slice(M - 2, M))):
+            raise Violation("C11.O3", f"{sigbase}:neg-slice", f"sr[-2:] returned {tail.shape[0]} rows / wrong values; {M} frames present")
+        neg2 = rd("[-M-5:2]", lambda: sr[-M - 5:2])
+        if neg2.shape[0] != 2 or not np.array_equal(neg2, expect(slice(0, 2))):
+            raise Violation("C11.O3", f"{sigbase}:neg-slice-start", f"sr[-M-5:2] returned {neg2.shape[0]} rows")
+    dd, ss = rd("read()", lambda: sr.read())            # defaults: first 10000 samples + sync
+    k = min(M, 10000)
+    if dd.shape[0] != k or ss.shape[0] != k or not np.array_equal(dd, expect(slice(0, k))):
+        raise Violation("C11.O3", f"{sigbase}:read-default", f"read() returned {dd.shape[0]} data rows / {ss.shape[0]} sync rows; {M} frames present")
+    sd = rd("read_sync()", lambda: sr.read_sync())
+    if sd.shape[0] != k:
+        raise Violation("C11.O3", f"{sigbase}:read_sync-default", f"read_sync() returned {sd.shape[0]} rows; {M} frames present")
     d, sy = rd("read_samples", lambda: sr.read_samples(0, M + 3))
     if d.shape[0] != M or sy.shape[0] != M:
         raise Violation("C11.O3", f"{sigbase}:read_samples", f"read_samples(0,{M + 3}) returned {d.shape[0]} data rows / {sy.shape[0]} sync rows; {M} frames present")
